@@ -40,6 +40,14 @@ import (
 
 func fPeer(n int) peer.ID { return peer.ID(fmt.Sprintf("verif-peer-%027d", n)) }
 
+func fNum(p peer.ID) int {
+	n, err := strconv.Atoi(strings.TrimLeft(strings.TrimPrefix(string(p), "verif-peer-"), "0"))
+	if err != nil {
+		return 0
+	}
+	return n
+}
+
 // record values are "<rank>:ok" / "<rank>:exp"; ":exp" values are valid only while `fresh` is set (like an IPNS
 // record before its end of life); higher rank wins
 type fValidator struct{ fresh *bool }
@@ -206,7 +214,7 @@ func runFullRT(c *vu.Case) {
 	a := fkv(c.In[0])
 	key := "/v/" + a["key"]
 	keyMH, _ := mh.Sum([]byte("verif-frt-"+a["key"]), mh.SHA2_256, -1)
-	if a["kind"] == "closest" {
+	if a["kind"] == "closest" || a["kind"] == "findprov" {
 		key = string(keyMH)
 	}
 	if a["kind"] == "construct" {
@@ -324,6 +332,58 @@ func runFullRT(c *vu.Case) {
 			e = err
 		}
 		out = fmt.Sprintf("returned=%d panic=%d err=%s", b, pan.Load(), fErr(e))
+	case "findprov":
+		// C08 for the accelerated client: every peer of the table answers GET_PROVIDERS at once with its scripted
+		// provider list (which may name a provider twice, or one the local store or another peer names too)
+		lists := strings.Split(a["provs"], "|")
+		provInfo := func(t string) peer.AddrInfo {
+			n, _ := strconv.Atoi(t)
+			ad, _ := ma.NewMultiaddr(fmt.Sprintf("/ip4/9.9.%d.%d/tcp/4001", n/250, n%250+1))
+			return peer.AddrInfo{ID: fPeer(500 + n), Addrs: []ma.Multiaddr{ad}}
+		}
+		w.sender.Auto = func(pk *simnet.Parked) (simnet.Result, bool) {
+			r := w.rank[pk.Peer]
+			if pk.Msg.GetType() != pb.Message_GET_PROVIDERS {
+				return simnet.Result{Err: simnet.ErrScripted}, true
+			}
+			resp := pb.NewMessage(pk.Msg.GetType(), pk.Msg.GetKey(), 0)
+			if r < len(lists) && lists[r] != "-" && lists[r] != "" {
+				var infos []peer.AddrInfo
+				for _, t := range strings.Split(lists[r], ".") {
+					infos = append(infos, provInfo(t))
+				}
+				resp.ProviderPeers = pb.RawPeerInfosToPBPeers(infos)
+			}
+			return simnet.Result{Resp: resp}, true
+		}
+		if a["local"] != "-" && a["local"] != "" {
+			for _, t := range strings.Split(a["local"], ".") {
+				if err := w.d.ProviderManager.AddProvider(ctx, keyMH, provInfo(t)); err != nil {
+					panic(err)
+				}
+			}
+		}
+		count, _ := strconv.Atoi(a["count"])
+		var got []string
+		done := make(chan struct{})
+		go func() {
+			defer close(done)
+			for p := range w.d.FindProvidersAsync(ctx, cid.NewCidV1(cid.Raw, keyMH), count) {
+				got = append(got, fmt.Sprint(fNum(p.ID)-500))
+			}
+		}()
+		synctest.Wait()
+		for i := 0; i < 3; i++ {
+			time.Sleep(6 * time.Second)
+			synctest.Wait()
+		}
+		closed := 0
+		select {
+		case <-done:
+			closed = 1
+		default:
+		}
+		out = fmt.Sprintf("closed=%d yield=[%s]", closed, strings.Join(got, ","))
 	case "getvalue":
 		// every peer of the table answers at once with its scripted record; PUT_VALUEs are logged with the state
 		// of their context at the moment they are sent
@@ -414,6 +474,36 @@ func TestVerifC16(t *testing.T) {
 			case c.Idx%40 == 7:
 				c.In = append(c.In, fmt.Sprintf("frt kind=construct key=%d K=3 limit=%s n=%d peers= bootstrap=%d values=%d providers=%d", c.Idx,
 					[]string{"none", "0", "2"}[r.Intn(3)], r.Intn(3), r.Intn(2), r.Intn(2), r.Intn(2)))
+				c.Tag("nontrivial")
+			case c.Idx%8 == 3:
+				n := r.Range(1, 6)
+				var lists []string
+				for i := 0; i < n; i++ {
+					var l []string
+					for j, m := 0, r.Intn(5); j < m; j++ {
+						l = append(l, fmt.Sprint(r.Intn(6)))
+					}
+					if len(l) == 0 {
+						lists = append(lists, "-")
+					} else {
+						lists = append(lists, strings.Join(l, "."))
+					}
+				}
+				local := "-"
+				if r.Bool() {
+					var l []string
+					seen := map[int]bool{}
+					for j, m := 0, r.Range(1, 3); j < m; j++ {
+						k := r.Intn(6)
+						if !seen[k] {
+							seen[k] = true
+							l = append(l, fmt.Sprint(k))
+						}
+					}
+					local = strings.Join(l, ".")
+				}
+				c.In = append(c.In, fmt.Sprintf("frt kind=findprov key=%d K=%d limit=0 n=%d peers= count=%d local=%s provs=%s", c.Idx, r.Range(1, 6), n,
+					[]int{0, 0, 1, 2, 3, 8}[r.Intn(6)], local, strings.Join(lists, "|")))
 				c.Tag("nontrivial")
 			case x < 6:
 				n := r.Range(0, 14)
